@@ -216,11 +216,16 @@ class Composite(Datum):
         merge_flow = {}
         merge_state = {}
         if composite:
-            merge_processes.update(composite['processes'])
-            merge_topology.update(composite['topology'])
-            merge_steps.update(composite['steps'])
-            merge_flow.update(composite['flow'])
-            merge_state.update(composite.get('state', {}))
+            # copy the nested dictionaries so that the merged-in
+            # composite does not share them with this one
+            merge_processes.update(
+                deep_copy_internal(composite['processes']))
+            merge_topology.update(
+                deep_copy_internal(composite['topology']))
+            merge_steps.update(deep_copy_internal(composite['steps']))
+            merge_flow.update(deep_copy_internal(composite['flow']))
+            merge_state.update(
+                deep_copy_internal(composite.get('state', {})))
 
         deep_merge(merge_processes, processes)
         deep_merge(merge_topology, topology)
